@@ -27,8 +27,24 @@ def clsNote (l : List MBox) : String := if l.all (fun m => inClass m.email) then
 
 def sameMailbox (a b : MBox) : Bool := normName a.name == normName b.name && a.email == b.email
 
+/-- split at white space -/
+def wsTokens : Bytes → Bytes → List Bytes
+  | cur, [] => [cur.reverse]
+  | cur, b :: r => if HeaderReader.isWsp b then cur.reverse :: wsTokens [] r else wsTokens (b :: cur) r
+
+/-- the weak reading of the 78-octet rule, used for mailbox headers: a line longer than 78 octets contains a
+    white-space-free token that by itself cannot fit on a line (with the field name before it on a first line, with one
+    blank before it on a continuation line) -/
+def longLinesHaveLongToken (s : Bytes) : Bool :=
+  (HeaderReader.physicalLines [] s).all fun l =>
+    l.length ≤ 78 ||
+      (let cont := (l.head?.map HeaderReader.isWsp).getD false
+       let pre := if cont then 1 else (l.takeWhile (· != 58)).length + 2
+       let body := if cont then l else (l.dropWhile (· != 58)).drop 1
+       (wsTokens [] body).any fun t => pre + t.length > 78)
+
 /-- `mbox <name|-> <addr> | <display> <parse-back> <serde> <wire>` -/
-def mboxOp : List String → String
+def mboxOpK (hdrName : String) : List String → String
   | [name, addr, disp, back, serde, wire] =>
     match optName name, hexChars? addr with
     | some n, some a =>
@@ -61,7 +77,7 @@ def mboxOp : List String → String
               let probe := blk ++ str "X-End: 1\r\n\r\nbody"
               match HeaderReader.split probe with
               | some ([(hn, v), _], _) =>
-                if hn != str "To" then propfail "field-name-changed" else
+                if hn != str hdrName then propfail "field-name-changed" else
                 if !HeaderReader.linesOk true 998 blk then propfail "header-line-malformed" else
                 let uv := HeaderReader.unfold v
                 let addrB := encodeUtf8 a
@@ -72,6 +88,9 @@ def mboxOp : List String → String
                 match phrase? with
                 | none => propfail "address-not-at-the-end-of-the-field"
                 | some ph =>
+                  -- UTF-8 only inside an internationalized address: the display name is written in ASCII
+                  if ph.any (fun b => 128 ≤ b.toNat) then propfail "display-name-with-raw-non-ASCII-octets" else
+                  if !longLinesHaveLongToken blk then propfail "line-over-78-without-a-token-that-long" else
                   let expName : Bytes := match n with | some x => encodeUtf8 x | none => []
                   let dec := if ph.isEmpty then some [] else StructuredDec.phraseDecode ph
                   if dec != some expName then propfail "display-name-does-not-decode-to-the-name"
@@ -83,12 +102,41 @@ def mboxOp : List String → String
     | _, _ => "BADLINE"
   | l => if l.contains "PANIC" then propfail "panic" else "BADLINE"
 
+/-- `mbox <name|-> <addr> [<header t|f|s|c|b|r>] | …`: the mailbox header that carries it on the wire -/
+def mboxOp : List String → String
+  | [name, addr, k, disp, back, serde, wire] =>
+    let hn := if k == "f" then "From" else if k == "s" then "Sender" else if k == "c" then "Cc" else if k == "b" then "Bcc"
+      else if k == "r" then "Reply-To" else "To"
+    mboxOpK hn [name, addr, disp, back, serde, wire]
+  | l => mboxOpK "To" l
+
 def mboxlistOp : List String → String
   | [items, disp, backConv] =>
     if disp == "PANIC" then propfail "panic" else
-    let (back, conv) := match backConv.splitOn "|" with
-      | [b, c] => (b, c)
-      | _ => (backConv, "conv:11111")
+    let (back, conv, wire) := match backConv.splitOn "|" with
+      | [b, c] => (b, c, "wire:-")
+      | [b, c, w] => (b, c, w)
+      | _ => (backConv, "conv:11111", "wire:-")
+    -- the list in a To header: one field, every line well formed and within the limits (C02), `get` returns the list
+    let wireErr : Option String :=
+      if wire == "wire:-" then none else
+      match (wire.drop 5).toString.splitOn ";" with
+      | [blockHex, got] =>
+        match ofHex blockHex, (if items == "-" then some [] else (items.splitOn ",").mapM parseShown), parseShownList got with
+        | some blk, some given, some gl =>
+          if gl.length != given.length || !(gl.zip given).all (fun (a, b) => sameMailbox a b) then
+            some "mailbox-list-header-does-not-read-back-equal" else
+          match HeaderReader.split (blk ++ str "X-End: 1\r\n\r\nbody") with
+          | some ([(hn, _), _], _) =>
+            if hn != str "To" then some "field-name-changed"
+            else if !HeaderReader.linesOk true 998 blk then some "header-line-malformed-or-over-998"
+            else if !longLinesHaveLongToken blk then some "line-over-78-without-a-token-that-long"
+            else none
+          | _ => some "header-section-does-not-parse-as-one-field"
+        | _, _, _ => some "mailbox-list-header-does-not-read-back"
+      | _ => some "bad-report"
+    if wireErr == some "bad-report" then "BADLINE" else
+    if let some e := wireErr then propfail e else
     if disp != "fmterr" && conv != "conv:11111" then propfail s!"mailbox-list-conversions-lose-or-reorder:{conv}" else
     let ms : Option (List MBox) := if items == "-" then some [] else (items.splitOn ",").mapM parseShown
     match ms with
